@@ -33,6 +33,10 @@ func c11BoltFilter(sym, op, lit string) string {
 		return sym + " contains " + lit
 	case "ncontains":
 		return sym + " not contains " + lit
+	case "icontains":
+		return sym + " icontains " + lit
+	case "nicontains":
+		return sym + " not icontains " + lit
 	}
 	return sym + " = " + lit
 }
